@@ -31,7 +31,7 @@ struct IN_t {
   // (3)
   unsigned char mlen[3], mbody[3][2], start;
   // (4)
-  unsigned char hn[3], he[3][2], objlike;
+  unsigned char hn[3], he[3][2], objlike, pbody;
 } IN;
 struct IN_t nondet_IN(void);
 
@@ -390,7 +390,12 @@ void h_expand_hideset(void) {
     for (int i = 0; i < 2; i++) __CPROVER_assume(IN.he[k][i] <= 2);
   }
   static Macro m;
-  mk(TK_IDENT, "b", 1, true); mk(TK_EOF, "", 0, false);
+  __CPROVER_assume(IN.pbody <= 1);
+  // replacement list: `b`, or `b ## c` (## is evaluated for object-like and function-like macros alike, also when the
+  // function-like macro has an empty parameter list)
+  mk(TK_IDENT, "b", 1, true);
+  if (IN.pbody) { mk(TK_PUNCT, "##", 2, true); mk(TK_IDENT, "c", 1, true); }
+  mk(TK_EOF, "", 0, false);
   m.name = "FM"; m.is_objlike = IN.objlike; m.body = take_list();
   hashmap_put(&macros, "FM", &m);
   Token *mt = mk(TK_IDENT, "FM", 2, false), *rp = NULL;
@@ -409,7 +414,7 @@ void h_expand_hideset(void) {
   if (verif_diag) return;
   VASSERT(expanded == !in4(0, 2), "a macro name is expanded unless it is in the hide set of its own token");
   if (!expanded) { VCOVER(); return; }
-  VASSERT(rest && rest->val == verif_spell("b") && rest->next == z, "the expansion is the body followed by the token after the invocation");
+  VASSERT(rest && rest->val == verif_spell(IN.pbody ? "bc" : "b") && rest->next == z, "the expansion is the replacement list (with ## evaluated) followed by the token after the invocation");
   for (int q = 0; q < 3; q++) {
     bool want = q == 2 || (in4(0, q) && (IN.objlike || in4(1, q)));
     VASSERT(hideset_contains(rest->hideset, pool4[q], q == 2 ? 2 : 1) == want,
